@@ -53,6 +53,9 @@ def weird_chart(rng):
     def nm():
         for _ in range(50):
             s = weird_string(rng)
+            if rng.random() < 0.2:
+                # state names may begin or end with (ASCII) blanks: they are kept verbatim, as names and as transition ends
+                s = rng.choice(['', ' ', '  ', '\t']) + s + rng.choice([' ', '  ', '\t', ' \t'])
             if s not in used and not known_finding_string(s):
                 used.add(s)
                 return s
